@@ -23,6 +23,7 @@ static OUT: Mutex<Option<File>> = parking_lot::const_mutex(None);
 static CURRENT_CASE: Mutex<Option<(u64, Instant)>> = parking_lot::const_mutex(None);
 static STALL_LIMIT_MS: AtomicU64 = AtomicU64::new(30_000);
 static CASE_LIMIT_MS: AtomicU64 = AtomicU64::new(900_000);
+static CALL_LIMIT_MS: AtomicU64 = AtomicU64::new(60_000);
 static LABELS: Mutex<BTreeMap<String, (String, Instant)>> =
     parking_lot::const_mutex(BTreeMap::new());
 
@@ -32,6 +33,21 @@ pub fn tick() {
 
 pub fn set_stall_limit(d: Duration) {
     STALL_LIMIT_MS.store(d.as_millis() as u64, Ordering::Relaxed);
+}
+
+/// Longest time a single harness-issued call may stay outstanding before it is reported as hung
+/// (other threads may keep making progress, so global silence alone cannot see this).
+pub fn set_call_limit(d: Duration) {
+    CALL_LIMIT_MS.store(d.as_millis() as u64, Ordering::Relaxed);
+}
+
+fn longest_outstanding_ms() -> u64 {
+    LABELS
+        .lock()
+        .values()
+        .map(|(_, since)| since.elapsed().as_millis() as u64)
+        .max()
+        .unwrap_or(0)
 }
 
 pub fn set_case_limit(d: Duration) {
@@ -181,7 +197,8 @@ pub fn start_watchdog() {
                 if let Some((idx, started)) = cur {
                     let stall = last_change.elapsed().as_millis() as u64;
                     let total = started.elapsed().as_millis() as u64;
-                    let stalled = stall > STALL_LIMIT_MS.load(Ordering::Relaxed);
+                    let stalled = stall > STALL_LIMIT_MS.load(Ordering::Relaxed)
+                        || longest_outstanding_ms() > CALL_LIMIT_MS.load(Ordering::Relaxed);
                     let overtime = total > CASE_LIMIT_MS.load(Ordering::Relaxed);
                     if stalled || overtime {
                         let panics = peek_panics();
